@@ -181,6 +181,14 @@ static void run_wrapper(void *arg)
 {
     (void)arg;
     G.wl->run();
+    {
+        unsigned long ev, ck;
+        wb_waitlist_stats(&ev, &ck);
+        if (ev) {
+            sim_count("waitlist.monitor_events", ev);
+            sim_count("waitlist.monitor_list_comparisons", ck);
+        }
+    }
     sim_result_ok();
 }
 
